@@ -333,7 +333,7 @@ def hqWalk (rank : Î±) (bucket : NBucket Î±) (count : Î±) : List (NBucket Î±) â†
 
 /-- Is `fixes/F-C32-1.patch` in /repo?  (The NaN-observation loop of `HistogramQuantile` no longer assigns
     the outer variable `bucket`.)  `false` = the code as found (finding F-C32-1). -/
-def repoFixedC32F1 : Bool := false
+def repoFixedC32F1 : Bool := true
 
 /-- `HistogramQuantile` after the first iterator loop: `bucket`, `count` are the loop's variables at
     `break`/exhaustion, `remaining` is what the iterator has not yielded yet.  `fixed = false` is the code as
